@@ -25,6 +25,11 @@ type Allocator struct {
 	updatesC     chan interface{}
 	partitions   map[uuid.UUID]*partition
 	partitionsMu *sync.RWMutex
+
+	// Reactions to membership changes waiting for runNodeChanges, oldest first
+	nodeChanges   []func()
+	nodeChangesMu *sync.Mutex
+	nodeChangesC  chan struct{}
 }
 
 type watchPartitionUpdate struct {
@@ -46,9 +51,14 @@ func NewAllocator(clusterConn *cluster.Conn) *Allocator {
 		updatesC:     make(chan interface{}),
 		partitions:   make(map[uuid.UUID]*partition),
 		partitionsMu: &sync.RWMutex{},
+
+		nodeChanges:   make([]func(), 0),
+		nodeChangesMu: &sync.Mutex{},
+		nodeChangesC:  make(chan struct{}, 1),
 	}
 
 	go a.run()
+	go a.runNodeChanges()
 
 	return a
 }
@@ -121,11 +131,26 @@ func (this *Allocator) run() {
 			if change == nil {
 				continue
 			}
+			// Reacting to a membership change means proposing replica set
+			// changes to the catalogue and waiting for them to be applied.
+			// The loop applying the catalogue hands partitions over to this
+			// loop (watch/unwatch), so this loop must not wait for it.
+			nodeId := change.NodeId
+			var handle func()
 			switch change.Type {
 			case cluster.NodesChangeAddNode:
-				this.addNodeToPartitions(change.NodeId)
+				handle = func() { this.addNodeToPartitions(nodeId) }
 			case cluster.NodesChangeRemoveNode:
-				this.removeNodeFromPartitions(change.NodeId)
+				handle = func() { this.removeNodeFromPartitions(nodeId) }
+			default:
+				continue
+			}
+			this.nodeChangesMu.Lock()
+			this.nodeChanges = append(this.nodeChanges, handle)
+			this.nodeChangesMu.Unlock()
+			select {
+			case this.nodeChangesC <- struct{}{}:
+			default:
 			}
 		case update := <-this.updatesC:
 			if update == nil {
@@ -163,6 +188,43 @@ func (this *Allocator) run() {
 	}
 }
 
+// Handles membership changes one at a time, in the order they were received
+func (this *Allocator) runNodeChanges() {
+	for {
+		select {
+		case <-this.nodeChangesC:
+		case <-this.ctx.Done():
+			return
+		}
+
+		for {
+			this.nodeChangesMu.Lock()
+			if len(this.nodeChanges) == 0 {
+				this.nodeChangesMu.Unlock()
+				break
+			}
+			handle := this.nodeChanges[0]
+			this.nodeChanges = this.nodeChanges[1:]
+			this.nodeChangesMu.Unlock()
+
+			handle()
+		}
+	}
+}
+
+// A copy of the watched partitions: proposals wait for the catalogue to be
+// applied, which takes partitionsMu (watch/unwatch), so it is not held meanwhile.
+func (this *Allocator) watchedPartitions() []*partition {
+	this.partitionsMu.RLock()
+	defer this.partitionsMu.RUnlock()
+
+	partitions := make([]*partition, 0, len(this.partitions))
+	for _, partition := range this.partitions {
+		partitions = append(partitions, partition)
+	}
+	return partitions
+}
+
 func (this *Allocator) isPartitionAssignedToNode(partition *partition) bool {
 	for _, nodeId := range partition.nodeIds() {
 		if this.clusterConn.Id() == nodeId {
@@ -182,10 +244,7 @@ func (this *Allocator) canModifyPartition(partition *partition) bool {
 }
 
 func (this *Allocator) addNodeToPartitions(nodeId uint64) {
-	this.partitionsMu.RLock()
-	defer this.partitionsMu.RUnlock()
-
-	for _, partition := range this.partitions {
+	for _, partition := range this.watchedPartitions() {
 		if this.canModifyPartition(partition) && partition.isUnderReplicated() {
 			partition.proposeAddNode(this.ctx, nodeId)
 		}
@@ -193,10 +252,7 @@ func (this *Allocator) addNodeToPartitions(nodeId uint64) {
 }
 
 func (this *Allocator) removeNodeFromPartitions(nodeId uint64) {
-	this.partitionsMu.RLock()
-	defer this.partitionsMu.RUnlock()
-
-	for _, partition := range this.partitions {
+	for _, partition := range this.watchedPartitions() {
 		if this.canModifyPartition(partition) {
 			partition.proposeRemoveNode(this.ctx, nodeId)
 		}
